@@ -18,6 +18,7 @@ func C02(p *core.Prog, rep *core.Report) {
 	codecAgreement(p, rep)
 	newMergeCtx(p, rep).mg1Guard()
 	rp1SkipBelow(p, rep)
+	bt2FlushThenStage(p, rep)
 	rep.NotCovered = append(rep.NotCovered, "equality of the two dumps over all histories and configuration pairs; ordering of files by name; adoption of merges (C06)")
 }
 
@@ -31,6 +32,7 @@ func C04(p *core.Prog, rep *core.Report) {
 	ps6SealLast(p, rep)
 	ps1Batch(p, rep)
 	staleActive(p, rep)
+	bt2FlushThenStage(p, rep)
 	rep.Assumptions = append(rep.Assumptions, "batch ids are unique across batches and restarts (snowflake time-based ids; not decided)")
 	rep.NotCovered = append(rep.NotCovered, "'either all or none after any crash instant'; live visibility when the seal write fails; uniqueness of batch ids")
 }
